@@ -5,6 +5,13 @@ go 1.23
 require golang.org/x/tools v0.29.0
 
 require (
+	github.com/tidwall/match v1.1.1 // indirect
 	golang.org/x/mod v0.22.0 // indirect
 	golang.org/x/sync v0.10.0 // indirect
+)
+
+require (
+	github.com/tidwall/gjson v1.12.1
+	github.com/tidwall/pretty v1.2.0
+	github.com/tidwall/sjson v1.2.4
 )
